@@ -107,3 +107,6 @@ mod maybe_nan;
 mod quantile;
 mod sort;
 mod summary_statistics;
+#[cfg(ndarray_stats_verif)]
+#[doc(hidden)]
+pub mod verif_hooks;
